@@ -31,7 +31,7 @@ def _run(harness, lines, prefix, scratch, timeout):
     tr = path + ".trace"
     try:
         subprocess.run([harness, path], stdout=subprocess.DEVNULL, stderr=subprocess.DEVNULL, timeout=timeout,
-                       env=dict(os.environ, IVY_SCHED_TRACE=tr, ASAN_OPTIONS="detect_leaks=0:abort_on_error=0"))
+                       env=dict(os.environ, IVY_SCHED_TRACE=tr, ASAN_OPTIONS="detect_stack_use_after_return=1:detect_leaks=0:abort_on_error=0"))
     except subprocess.TimeoutExpired:
         pass
     trace = []
